@@ -173,24 +173,13 @@ func (st *State) oblige(kind, name, goal, note string) {
 	if f.inlTag != "" {
 		name = f.inlTag + name
 	}
+	mv := st.modelVars()
 	vc := &VC{Name: name, Func: st.res.Key, Kind: kind, Goal: goal, Note: note,
-		Decls: st.decls.slice(), Asserts: st.asserts.slice(), Props: st.clauseProps}
-	vc.ModelVars = st.modelVars()
+		Decls: st.decls.slice(), Asserts: st.asserts.slice(), Props: st.clauseProps, ModelVars: mv}
 	if strings.Contains(goal, "(forall ") || strings.Contains(goal, "(exists ") {
 		vc.Quant = true
 	}
 	st.res.VCs = append(st.res.VCs, vc)
-}
-
-func (st *State) modelVars() []ModelVar {
-	var mv []ModelVar
-	for _, k := range sortedKeys(st.entryVars) {
-		v := st.entryVars[k]
-		if v.Term != "" && v.S != "Tuple" {
-			mv = append(mv, ModelVar{Name: k, Term: v.Term, Sort: v.S})
-		}
-	}
-	return mv
 }
 
 func (st *State) pos(ins ssa.Instruction) string {
